@@ -361,25 +361,26 @@ type GateFn func(n int, kind, from, to string)
 
 // World is one cluster case.
 type World struct {
-	Cfg       Config
-	FS        *storage.MemoryFilesystem
-	Loc       *MemLoc
-	H         *Handler
-	Job       *jobs.Job
-	Clock     *hx.Clock
-	oldClocks []*hx.Clock // clocks of replaced job processes: time passes for them too
-	Src       *source
-	ErrC      chan error
-	mu        sync.Mutex
-	workers   map[string]*Worker
-	byNode    map[string]*Worker // operator id / source runner id -> worker
-	dead      []*Worker
-	dbs       map[any]bool
-	gateN     atomic.Int64
-	Gate      GateFn
-	jobAlive  atomic.Bool
-	holdAcks  atomic.Bool
-	jobEpoch  atomic.Int64
+	Cfg        Config
+	FS         *storage.MemoryFilesystem
+	Loc        *MemLoc
+	H          *Handler
+	Job        *jobs.Job
+	Clock      *hx.Clock
+	oldClocks  []*hx.Clock // clocks of replaced job processes: time passes for them too
+	Src        *source
+	ErrC       chan error
+	mu         sync.Mutex
+	workers    map[string]*Worker
+	byNode     map[string]*Worker // operator id / source runner id -> worker
+	dead       []*Worker
+	dbs        map[any]bool
+	dbActivity atomic.Int64 // hook points passed by the databases' memtable rotations, flushes and compactions
+	gateN      atomic.Int64
+	Gate       GateFn
+	jobAlive   atomic.Bool
+	holdAcks   atomic.Bool
+	jobEpoch   atomic.Int64
 	// observations
 	StartCkpts    []uint64
 	SRAcks        []*jobpb.SourceRunnerCheckpointCompleteRequest
@@ -395,6 +396,7 @@ type World struct {
 	RestoredDups  []string
 	Delivered     map[string][]Delivered // operator id -> events in arrival order
 	nameSeq       int
+	NamePrefix    string // worker names of this world: a job started later on the same storage runs in new processes, whose operator ids (random in production) never repeat
 	pointHook     func(name string)
 	Exited        chan string      // workers that exited on their own (a supervisor restarts them)
 	wmTickers     []chan time.Time // the watermark tickers of every source runner deployed so far
@@ -604,6 +606,7 @@ func (w *World) installHooks() {
 		// a dead process whose cleanups must never run (and see the open finding
 		// about the cleanups of a redeployed survivor's previous database)
 		if strings.HasPrefix(name, "dkv.") && len(args) > 0 {
+			w.dbActivity.Add(1)
 			w.mu.Lock()
 			w.dbs[args[0]] = true
 			h := w.pointHook
@@ -916,7 +919,7 @@ func (c *srClient) StartCheckpoint(ctx context.Context, id uint64) (err error) {
 func (w *World) StartWorker() *Worker {
 	w.mu.Lock()
 	w.nameSeq++
-	name := fmt.Sprintf("w%d", w.nameSeq)
+	name := fmt.Sprintf("%sw%d", w.NamePrefix, w.nameSeq)
 	w.mu.Unlock()
 	x := &Worker{Name: name}
 	x.alive.Store(true)
@@ -1010,18 +1013,27 @@ func (w *World) WatermarkTick() {
 // objects collected, whatever its flush and compaction goroutines were doing
 // must have come to an end).
 func (w *World) QuiesceDBs() {
-	w.mu.Lock()
-	var dbs []*dkv.DB
-	for d := range w.dbs {
-		if db, ok := d.(*dkv.DB); ok {
-			dbs = append(dbs, db)
+	// A killed operator may still be finishing the event it was working on,
+	// which can rotate a memtable and start another flush and compaction: wait
+	// until a whole pause passes without any database of this world moving.
+	for round := 0; round < 40; round++ {
+		before := w.dbActivity.Load()
+		w.mu.Lock()
+		var dbs []*dkv.DB
+		for d := range w.dbs {
+			if db, ok := d.(*dkv.DB); ok {
+				dbs = append(dbs, db)
+			}
+		}
+		w.mu.Unlock()
+		for _, db := range dbs {
+			hx.WaitTasks(db.WaitOnTasks)
+		}
+		time.Sleep(400 * time.Microsecond)
+		if round > 0 && w.dbActivity.Load() == before {
+			return
 		}
 	}
-	w.mu.Unlock()
-	for _, db := range dbs {
-		hx.WaitTasks(db.WaitOnTasks)
-	}
-	time.Sleep(200 * time.Microsecond)
 }
 
 // Kill stops a worker abruptly: no deregistration, its in-flight calls fail.
